@@ -353,7 +353,7 @@ Proof.
   { split; [split; [eexists; reflexivity|split; [apply nondec_one|constructor; [exact zero_pos64|constructor]]]|].
     constructor; [reflexivity|constructor]. }
   destruct e as [L|].
-  - destruct (near_natural (natural_len path D.zero) L).
+  - destruct (keeps_natural (natural_len path D.zero) L).
     { rewrite C in H. apply Done_pair_inj in H; destruct H as [<- <-]. split; [exact Hnat|]. intros F _. now apply Fin. }
     destruct (last_two_equal path && D.gt L (natural_len path D.zero))%bool eqn:E2.
     { rewrite C in H. apply Done_pair_inj in H; destruct H as [<- <-].
